@@ -319,26 +319,42 @@ func (r *rwRT) ruleOracles() {
 			fileNode := r.node("File", "file")
 			for _, ob := range []AV{yieldObj, fromObj} {
 				useNode, useObj = id, ob
-				sts := []*State{d.base}
-				for _, stp := range []step{{"pre", fileNode}, {"pre", F}, {"pre", id}, {"post", id}, {"post", F}, {"post", fileNode}} {
-					cb := d.pre
-					if stp.cb == "post" {
-						cb = d.pst
-					}
-					var next []*State
-					for _, st := range sts {
-						for _, o := range d.step(st, cb, stp.node) {
-							if !o.Panicked {
-								next = append(next, o.St)
+				// wherever the use stands: alone in a function, before a function literal of the same function
+				// (`emit := Yield[int]; go func() { … }()`), at package level before a function
+				survive, where := 0, ""
+				for _, sc := range []struct {
+					desc  string
+					steps []step
+				}{
+					{"in a function", []step{{"pre", fileNode}, {"pre", F}, {"pre", id}, {"post", id}, {"post", F}, {"post", fileNode}}},
+					{"in a function, before a function literal", []step{{"pre", fileNode}, {"pre", F}, {"pre", id}, {"post", id}, {"pre", L}, {"post", L}, {"post", F}, {"post", fileNode}}},
+					{"at package level, before a function", []step{{"pre", fileNode}, {"pre", id}, {"post", id}, {"pre", F}, {"post", F}, {"post", fileNode}}},
+				} {
+					sts := []*State{d.base}
+					for _, stp := range sc.steps {
+						cb := d.pre
+						if stp.cb == "post" {
+							cb = d.pst
+						}
+						var next []*State
+						for _, st := range sts {
+							for _, o := range d.step(st, cb, stp.node) {
+								if !o.Panicked {
+									next = append(next, o.St)
+								}
 							}
 						}
+						sts = next
 					}
-					sts = next
+					if len(sts) > 0 {
+						survive += len(sts)
+						where = sc.desc
+					}
 				}
 				useNode, useObj = nil, nil
-				c.check(len(sts) == 0, "RW.ORACLE", "a use of "+strings.TrimPrefix(argLabel(ob), "obj:")+" that is not called is rejected", pos,
-					"an identifier denoting the API function that is not the callee of a call ends the traversal of the file in a diagnostic",
-					fmt.Sprintf("%d path(s) of the collector complete although the file uses the API function as a value (`y := Yield[int]; y(1)`): nothing lowers such a use, the generated code calls the stub of package co and the value is lost", len(sts)))
+				c.check(survive == 0, "RW.ORACLE", "a use of "+strings.TrimPrefix(argLabel(ob), "obj:")+" that is not called is rejected", pos,
+					"an identifier denoting the API function that is not the callee of a call ends the traversal of the file in a diagnostic (in a function, before a function literal, at package level)",
+					fmt.Sprintf("%d path(s) of the collector complete although the file uses the API function as a value (%s: `y := Yield[int]; y(1)`): nothing lowers such a use, the generated code calls the stub of package co and the value is lost", survive, where))
 			}
 		}
 		r.account(d.in)
